@@ -58,7 +58,7 @@ def run_demo(src_dir, tree):
 
 
 def run_check(tree, prop, tier):
-    env = dict(os.environ, VERIF_REPO=tree)
+    env = dict(os.environ, VERIF_REPO=tree, VERIF_BUILD_ROOT=os.path.join(tree, "_build"))
     t0 = time.time()
     rc, out = sh([sys.executable, os.path.join(VERIF, "sim", "run.py"), "check", prop, "--tier", tier], cwd=VERIF, env=env, timeout=7200)
     keys = [l.strip() for l in out.split("\n") if l.strip().startswith("key=")]
